@@ -25,6 +25,7 @@ PROBE_FINDINGS = [
     ("C04-goexit-during-panic", "goexit-in-deferred", [15]),
     ("C04-panic-nil", "panic-nil", [22]),
     ("C04-block-order-replay", "loop-branch-then-defer", [26, 27, 28]),
+    ("C04-frame-stays-linked", "first-defer-panics", [29]),
 ]
 
 PANIC_RE = re.compile(r"^\s*panic: (.*)$")
